@@ -1,8 +1,8 @@
 (* C06 — gopar reads any conformant PAR2 set, however it is laid out.
    Model: read_file, read_file_vol (par2/file.go readFile, on the index file and on a recovery file),
    new_decoder, load_parity, parity_array in Model/Par2.v;
-   the directory listing of Model/FS.v (literal prefix and suffix). *)
-From Gopar Require Import Proofs.Par1Clean Proofs.Par2Reader2 Proofs.Par2Ignore Proofs.Par2LayoutOps.
+   the directory listing of Model/FS.v (literal prefix and suffix, entries of one directory). *)
+From Gopar Require Import Proofs.Par1Clean Proofs.Par2Reader2 Proofs.Par2Ignore Proofs.Par2LayoutOps Proofs.Par2Targets.
 From Gopar Require Import Model.Base Model.CRC Model.GoPath Model.FS Model.Par2
      Proofs.Par2Facts Proofs.Par2Verify Proofs.Par2Create Proofs.Par2Layout.
 Open Scope N_scope.
@@ -79,16 +79,27 @@ Theorem C06_blocks_distinct : forall (acc : list (N * bytes)),
 Proof. exact parity_count_distinct. Qed.
 Print Assumptions C06_blocks_distinct.
 
-(* volume discovery is literal: a path is listed iff it has the prefix and the suffix, without overlap *)
+(* volume discovery is literal and confined to ONE directory: a path is listed iff it has the prefix and the suffix,
+   without overlap, and no separator after the prefix (a file of the directory of the prefix, not of a sub-directory) *)
 Theorem C06_discovery : forall pre suf fs sched,
   fst (io_list pre suf (io_init fs sched)) =
   match sched_lookup sched 0 with
   | Some _ => Err EIO
-  | None => Ok (sort_paths (filter (fun q => Nat.leb (length pre + length suf) (length q) && starts_with q pre && ends_with q suf)
+  | None => Ok (sort_paths (filter (fun q => Nat.leb (length pre + length suf) (length q) && starts_with q pre && ends_with q suf
+                                             && no_slash (skipn (length pre) q))
                                    (map fst fs)))
   end.
 Proof. intros. unfold io_list, io_init. cbn [io_sched io_n io_fs]. destruct (sched_lookup sched 0); reflexivity. Qed.
 Print Assumptions C06_discovery.
+
+(* member by member, fault-free: a path is listed iff it is a file of the map of the form <pre><mid><suf> with no
+   separator in <mid><suf> - a file of the very directory the prefix points into; a file below a sub-directory
+   <pre>x/ is not listed (Par2LayoutOps.LOExample.deeper_file_not_listed, Par2Targets.TGExample.tg_listing_subdirectory) *)
+Theorem C06_discovery_members : forall pre suf fs paths st',
+  io_list pre suf (io_init fs []) = (Ok paths, st') ->
+  forall q, In q paths <-> In q (map fst fs) /\ exists mid, q = pre ++ mid ++ suf /\ ~ In SLASH (mid ++ suf).
+Proof. exact io_list_members. Qed.
+Print Assumptions C06_discovery_members.
 
 (* HOWEVER THE RECOVERY BLOCKS ARE DISTRIBUTED OVER FILES (Proofs/Par2Reader2.v): two directory layouts whose recovery
    files are well-formed packet sequences containing, IN TOTAL, the same set of packets - however many files, however
@@ -143,7 +154,8 @@ Proof. exact permuted_index_same_decoder. Qed.
 Print Assumptions C06_permuted_index_same_decoder.
 
 (* "EVERY INTACT RECOVERY BLOCK STORED BESIDE THE INDEX FILE IS FOUND AND USED": for a recovery file at ANY path the
-   discovery pattern accepts (paths are byte strings: spaces, glob metacharacters, further directory levels),
+   discovery pattern accepts (paths are byte strings: spaces, glob metacharacters; the pattern accepts the files of
+   the index file's own directory, not those of a sub-directory),
    holding a well-formed recovery packet of the set with exponent e, the loaded table has that block at e and the
    usable-block count is the number of distinct exponents present. *)
 Theorem C06_intact_block_found_and_used : forall md5, (forall x, length (md5 x) = 16%nat) ->
